@@ -64,6 +64,98 @@ func (o obs) coq() string {
 		vh.Bool(o.fl.getFiles), vh.Bool(o.fl.getUrls), o.kind, o.fetch, o.get, o.verify)
 }
 
+func classGet(blk interface{ RawData() []byte }, err error, data []byte) string {
+	var cre *filestore.CorruptReferenceError
+	switch {
+	case err == nil && string(blk.RawData()) == string(data):
+		return "GSame"
+	case err == nil:
+		return "GOther"
+	case ipld.IsNotFound(err):
+		return "GNone"
+	case errors.Is(err, filestore.ErrFilestoreNotEnabled), errors.Is(err, filestore.ErrUrlstoreNotEnabled):
+		return "GNotEnabled"
+	case errors.As(err, &cre) && cre.Code == filestore.StatusFileNotFound:
+		return "GNotFound"
+	case errors.As(err, &cre) && cre.Code == filestore.StatusFileChanged:
+		return "GChanged"
+	}
+	return "GOther"
+}
+
+func classVerify(st filestore.Status) string {
+	switch st {
+	case filestore.StatusOk:
+		return "GSame"
+	case filestore.StatusFileNotFound:
+		return "GNotFound"
+	case filestore.StatusFileChanged:
+		return "GChanged"
+	case filestore.StatusKeyNotFound:
+		return "GNone"
+	}
+	return "GOther"
+}
+
+// tryBatch runs one PutMany of references to the given paths on a fresh FileManager, then Get and
+// Verify of every element under the read-time flags. nil when two elements would share a CID.
+func tryBatch(t *testing.T, root string, fulls []string, fl flags) []obs {
+	ctx, cancel := context.WithTimeout(context.Background(), 4*time.Second)
+	defer cancel()
+	mds := ds.NewMapDatastore()
+	fm := filestore.NewFileManager(mds, root)
+	fm.AllowFiles, fm.AllowUrls = fl.putFiles, fl.putUrls
+	os2 := make([]obs, len(fulls))
+	datas := make([][]byte, len(fulls))
+	nodes := make([]*posinfo.FilestoreNode, len(fulls))
+	seen := map[string]bool{}
+	for i, full := range fulls {
+		local := filepath.Clean(full)
+		if filestore.IsURL(full) {
+			local = filepath.Join(root, full)
+		}
+		kind, data := kindOf(local)
+		os2[i] = obs{root: root, path: full, fl: fl, kind: kind, fetch: "GOther", get: "GNone", verify: "GNone", put: "PRejected"}
+		if data == nil {
+			counter++
+			data = []byte(fmt.Sprintf("absent-%d", counter))
+		}
+		if seen[string(data)] {
+			return nil
+		}
+		seen[string(data)] = true
+		datas[i] = data
+		nodes[i] = &posinfo.FilestoreNode{Node: dag.NewRawNode(data), PosInfo: &posinfo.PosInfo{FullPath: full, Offset: 0}}
+	}
+	err := fm.PutMany(ctx, nodes)
+	for i := range fulls {
+		if err != nil {
+			continue
+		}
+		raw, gerr := mds.Get(ctx, filestore.FilestorePrefix.Child(dshelp.MultihashToDsKey(nodes[i].Cid().Hash())))
+		if gerr != nil {
+			t.Fatalf("PutMany succeeded but a reference is missing from the datastore: %v", gerr)
+		}
+		var dobj pb.DataObj
+		if uerr := proto.Unmarshal(raw, &dobj); uerr != nil {
+			t.Fatal(uerr)
+		}
+		os2[i].put, os2[i].stored = "PStored", dobj.GetFilePath()
+	}
+	fm.AllowFiles, fm.AllowUrls = fl.getFiles, fl.getUrls
+	fstore := filestore.NewFilestore(blockstore.NewBlockstore(mds), fm, nil)
+	for i := range fulls {
+		blk, gerr := fm.Get(ctx, nodes[i].Cid())
+		if gerr == nil {
+			os2[i].get = classGet(blk, nil, datas[i])
+		} else {
+			os2[i].get = classGet(nil, gerr, datas[i])
+		}
+		os2[i].verify = classVerify(filestore.Verify(ctx, fstore, nodes[i].Cid()).Status)
+	}
+	return os2
+}
+
 // strLit renders a string as a list of N character codes (N_scope is open in the preamble).
 func strLit(s string) string {
 	items := make([]string, len(s))
@@ -214,6 +306,7 @@ func TestC41(t *testing.T) {
 		"behind '..' components, file and directory names containing backslashes ('..\\x', '\\..\\x', 'sub\\b': single components on POSIX, with victims of the slash-spelled name outside), behind directory and file symlinks, absolute elsewhere, relative vs absolute mismatches, missing files; " +
 		"URL-shaped references (http://../.., https://..//x, http:///.., '..' path segments, near-misses: one slash, upper-case scheme) and genuine URLs of a local HTTP server; " +
 		"AllowFiles/AllowUrls chosen independently at Put time and at read time (same datastore); Get and Verify observed; " +
+		"PutMany batches (inside-root files next to sibling-prefix / '..' / outside paths, both orders, every element observed); " +
 		"non-trivial = FullPath has the root string as a string prefix and contains a '..' component or a sibling-prefix name or a symlink, " +
 		"or is URL-shaped with a '..' segment or with different urlstore settings at Put and read time; distinct by (root, path, flags)")
 	cs := vh.NewCases(e, "From V Require Import model.M_C41.\nOpen Scope N_scope.", "case", "check_case", 250)
@@ -267,7 +360,7 @@ func TestC41(t *testing.T) {
 		}
 		o := try(t, root, full, fl)
 		rp := map[string]any{"root": root, "path": full, "flags": fl.String(), "put": o.put, "stored": o.stored, "get": o.get, "verify": o.verify, "kind": kind}
-		cs.Add(o.coq(), rp)
+		cs.Add(vh.App("CSingle", o.coq()), rp)
 		nt := (strings.HasPrefix(full, root) && (strings.Contains(full, "..") || strings.Contains(full, "root-evil") ||
 			strings.Contains(full, "rootx") || strings.Contains(full, "link"))) ||
 			(filestore.IsURL(full) && (strings.Contains(full, "..") || fl.putUrls != fl.getUrls))
@@ -288,6 +381,30 @@ func TestC41(t *testing.T) {
 		st.Sample(rp, 6)
 	}
 	emit := func(root, full, kind string) { emitF(root, full, kind, allOn) }
+	emitBatch := func(root string, fulls []string, kind string, fl flags) {
+		for _, f := range fulls {
+			if symlinkThenDotDot(f) || (filestore.IsURL(f) && fl.getUrls && !strings.HasPrefix(f, srvURL+"/")) {
+				return
+			}
+		}
+		os2 := tryBatch(t, root, fulls, fl)
+		if os2 == nil {
+			return
+		}
+		var terms, outs []string
+		nt := false
+		for _, o := range os2 {
+			terms = append(terms, o.coq())
+			outs = append(outs, fmt.Sprintf("%s put=%s stored=%q get=%s verify=%s", o.path, o.put, o.stored, o.get, o.verify))
+			nt = nt || strings.Contains(o.path, "..") || strings.Contains(o.path, "root-") || strings.Contains(o.path, "rootx")
+		}
+		rp := map[string]any{"root": root, "batch": fulls, "flags": fl.String(), "outcomes": outs, "kind": kind}
+		cs.Add(vh.App("CBatch", vh.List(terms)), rp)
+		st.Case("B|"+root+"|"+strings.Join(fulls, "|")+"|"+fl.String(), nt && len(fulls) >= 2)
+		st.Count("kind=batch-" + kind)
+		st.Count(fmt.Sprintf("batch size=%d stored=%v", len(fulls), len(os2) > 0 && os2[0].put == "PStored"))
+		st.Sample(rp, 8)
+	}
 
 	// an HTTP server for genuine URL references
 	served["/obj/a"] = []byte("served-a")
@@ -306,6 +423,24 @@ func TestC41(t *testing.T) {
 
 	// corpus: the finding's witnesses first, then boundary spellings
 	R := T + "/root"
+	// PutMany: every element is checked on its own; a neighbour in the root must not vouch for an outsider
+	write(t, T+"/root-private/secret.txt", "OUTSIDE-private-secret")
+	for _, b := range [][]string{
+		{R + "/a", T + "/root-private/secret.txt"}, {T + "/root-private/secret.txt", R + "/a"},
+		{R + "/a", T + "/root-evil/secret"}, {T + "/root-evil/secret", R + "/a"},
+		{R + "/a", R + "/../x"}, {R + "/../x", R + "/a"},
+		{R + "/sub/b", T + "/x"}, {T + "/x", R + "/sub/b"},
+		{R + "/sub/b", R + "/sub/../../rootx"}, {R + "/a", T + "/rootx"},
+		{R + "/sub/deep/c", R + "/sub/deep/../../../other/x"},
+		{R + "/a", R + "/sub/b", R + "/sub/deep/c"}, {R + "/a"}, {},
+		{R + "/a", R + "/sub/b", T + "/root-private/secret.txt", R + "/sub/deep/c"},
+		{R + "/a", R + "/missing", R + "/sub/b"},
+	} {
+		emitBatch(R, b, "corpus", allOn)
+	}
+	emitBatch("root", []string{"root/a", "root-private/secret.txt"}, "corpus", allOn)
+	emitBatch(R+"/sub", []string{R + "/sub/b", R + "/sub-x"}, "corpus", allOn)
+	emitBatch(R, []string{R + "/a", T + "/root-private/secret.txt"}, "corpus", flags{true, true, true, false})
 	// the seeded scenario: a URL-shaped reference made of ".." segments is stored while the urlstore is on; the same
 	// datastore is later read with the urlstore off and the filestore on
 	up := func(n int) string { return strings.Repeat("../", n) }
@@ -467,6 +602,17 @@ func TestC41(t *testing.T) {
 			fl = flags{e.Rng.Intn(4) != 0, e.Rng.Intn(4) != 0, e.Rng.Intn(4) != 0, e.Rng.Intn(3) == 0}
 		}
 		emitF(root, full, "random", fl)
+		if i%10 == 0 {
+			// a batch: one or two files inside <T>/root, an arbitrary path somewhere among them
+			in := []string{R + "/a", R + "/sub/b", R + "/sub/deep/c", R + "/..hidden", R + "/.../d", "root/a", R + "//sub/./b"}
+			bt := []string{in[e.Rng.Intn(len(in))]}
+			if e.Rng.Intn(2) == 0 {
+				bt = append(bt, in[e.Rng.Intn(len(in))])
+			}
+			pos := e.Rng.Intn(len(bt) + 1)
+			bt = append(bt[:pos], append([]string{full}, bt[pos:]...)...)
+			emitBatch(root, bt, "random", fl)
+		}
 	}
 	st.Extra["accepted_lexically_inside_but_physically_outside_via_symlink"] = physOutside
 	cs.Close()
